@@ -552,3 +552,96 @@ func TestProp_Sequences(t *testing.T) {
 		})
 	})
 }
+
+// plainSource is an application-side key source handing out whatever secret and
+// key ID it was given (fresh copies on every call), with or without a previous pair.
+type plainSource struct {
+	id      string
+	key     []byte
+	hasPrev bool
+	prevID  string
+	prevKey []byte
+}
+
+func (p *plainSource) X25519EncryptionKey() (string, []byte, error) {
+	return p.id, append([]byte(nil), p.key...), nil
+}
+
+func (p *plainSource) PreviousX25519EncryptionKey() (string, []byte, error) {
+	if !p.hasPrev {
+		return "", nil, nil
+	}
+	return p.prevID, append([]byte(nil), p.prevKey...), nil
+}
+
+// TestProp_PairSets: the statement read over arbitrary key sources. A receiver
+// recognises the set of (secret, key ID) pairs {current} ∪ {previous}; a message
+// sent under pair p decrypts (to exactly the original) iff p is in that set. Key
+// IDs come from a small alphabet that includes the EMPTY id, secrets from a small
+// pool, so that pairs sharing only the secret or only the id are frequent.
+func TestProp_PairSets(t *testing.T) {
+	rec := vkit.Rec(prop)
+	vkit.SetRapidChecks(vkit.N(1500))
+	rapid.Check(t, func(t *rapid.T) {
+		pool := make([][]byte, 3)
+		for i := range pool {
+			pool[i] = make([]byte, 32)
+			copy(pool[i], newPair().priv)
+		}
+		ids := []string{"", "k1", "k2", "k1x"}
+		drawPair := func(label string) (int, string) {
+			return rapid.IntRange(0, len(pool)-1).Draw(t, label+"-secret"), rapid.SampledFrom(ids).Draw(t, label+"-id")
+		}
+		cs, cid := drawPair("receiver-current")
+		recv := &plainSource{id: cid, key: pool[cs]}
+		ps, pid := -1, ""
+		if rapid.Bool().Draw(t, "receiverHasPrevious") {
+			ps, pid = drawPair("receiver-previous")
+			recv.hasPrev, recv.prevID, recv.prevKey = true, pid, pool[ps]
+		}
+		ss, sid := drawPair("sender")
+		sender := &plainSource{id: sid, key: pool[ss]}
+		_, msg := genMessage(t)
+		ct, err := nodeenrollment.EncryptMessage(ctx, msg, sender)
+		if err != nil {
+			vkit.Violate(t, prop, "C11/encrypt-error/pair-set", fmt.Sprintf("EncryptMessage failed: %v", err), nil)
+			return
+		}
+		matchCur := ss == cs && sid == cid
+		matchPrev := recv.hasPrev && ss == ps && sid == pid
+		detail := func() any {
+			return map[string]any{"sender": fmt.Sprintf("secret#%d id=%q", ss, sid), "receiver_current": fmt.Sprintf("secret#%d id=%q", cs, cid),
+				"receiver_previous": map[bool]string{true: fmt.Sprintf("secret#%d id=%q", ps, pid), false: "none"}[recv.hasPrev]}
+		}
+		cls := "no-match"
+		switch {
+		case matchCur:
+			cls = "matches-current"
+		case matchPrev:
+			cls = "matches-previous"
+		case ss == cs || (recv.hasPrev && ss == ps):
+			cls = "secret-matches-id-differs"
+		case sid == cid || (recv.hasPrev && sid == pid):
+			cls = "id-matches-secret-differs"
+		}
+		emptyID := sid == "" || cid == "" || (recv.hasPrev && pid == "")
+		rec.Case("pair-set/"+cls+map[bool]string{true: "/empty-id-involved", false: ""}[emptyID], fmt.Sprintf("%d%s|%d%s|%v%d%s", ss, sid, cs, cid, recv.hasPrev, ps, pid), true, detail)
+		got, derr, panicked := decrypt(t, ct, recv, msg, "pair-set", detail())
+		if panicked {
+			return
+		}
+		if matchCur || matchPrev {
+			if derr != nil || !proto.Equal(got, msg) {
+				vkit.Violate(t, prop, "C11/roundtrip/pair-set/"+cls, fmt.Sprintf("the receiver holds the sender's (secret, key ID) pair but decryption did not return the original (err=%v)", derr), detail())
+			}
+			return
+		}
+		if derr == nil {
+			key := "C11/accepts-wrong-secret"
+			if cls == "secret-matches-id-differs" {
+				key = "C11/accepts-wrong-keyid"
+			}
+			vkit.Violate(t, prop, key+"/pair-set", "decryption succeeded although the sender's (secret, key ID) pair is neither the receiver's current nor its previous pair", detail())
+		}
+	})
+}
